@@ -859,6 +859,13 @@ func (w *WAL) Save(st raftpb.HardState, ents []raftpb.Entry) error {
 		return nil
 	}
 
+	if mustSync && fsync {
+		// the term or vote changed in this save, make sure it is durable
+		// before the segment is rolled (the cut only does the optimized sync)
+		if err := w.sync(true); err != nil {
+			return err
+		}
+	}
 	return w.cut()
 }
 
